@@ -57,6 +57,25 @@ for cls in (TypeQualifier, VR.Entity, VR.Architecture):
 
 C.inline("cohdl._compiler.backend.vhdl._vhdl_repr:VhdlScope.Declaration.__init__")
 
+VALID = z3.Function("VALID_IDENTIFIER", sym.StrS, z3.BoolSort())
+IDENT = z3.Function("IDENT", sym.StrS, sym.StrS, sym.StrS)
+
+
+def _ident_model(it, name, fallback):
+    from pyvc import ops
+
+    tn = ops.str_term(name)
+    tf = ops.str_term(fallback if fallback is not None else "<no fallback>")
+    t = IDENT(tn, tf)
+    if not hasattr(it, "ident_terms"):
+        it.ident_terms = []
+    it.ident_terms.append(t)
+    return SStr(t)
+
+
+if "_valid_identifier" in VhdlScope.__dict__:
+    I.register_model(VhdlScope.__dict__["_valid_identifier"].__func__, _ident_model)
+
 
 # ---- loop specs ------------------------------------------------------------------------------
 class NameLoop(C.LoopSpec):
@@ -104,6 +123,23 @@ class NameLoop(C.LoopSpec):
                 lt = ops.str_term(nm.lower()) if isinstance(nm, str) else lower(t)
                 ok = z3.And(st["adds"][0] == lt, used == z3.SetAdd(st["before"], lt))
         it.ctx.prove(QUAL + "#loop3#name-recorded", ok, loop=self.key)
+        # the name is a legal VHDL identifier: VALID is an uninterpreted predicate; what is known about it is the contract
+        # of VhdlScope._valid_identifier (its result is VALID, contract + bounded sweep in this module) and that a valid
+        # identifier followed by a decimal number is valid again (the counter appended to resolve collisions)
+        valid_ok = False
+        from pyvc import ops
+
+        t = ops.str_term(nm)
+        if t is not None:
+            k = z3.Int("k!valid")
+            hyps = []
+            for ident in getattr(it, "ident_terms", []):
+                hyps.append(VALID(ident))
+                hyps.append(z3.ForAll([k], z3.Implies(k >= 0, VALID(sym.S_CAT(ident, sym.S_NUM(k))))))
+            valid_ok = z3.Implies(z3.And(*hyps) if hyps else z3.BoolVal(True), VALID(t))
+        it.ctx.prove(QUAL + "#loop3#valid-identifier", valid_ok, loop=self.key)
+        if hasattr(it, "ident_terms"):
+            it.ident_terms.clear()
 
 
 class DoublingLoop(C.LoopSpec):
@@ -133,7 +169,8 @@ class HalvingLoop(C.LoopSpec):
         used = frame.locals["used_names"].term
         if tb is None:
             return False
-        return z3.And(sym.to_z3(step) >= 0, z3.Not(z3.IsMember(lower(sym.S_CAT(tb, sym.S_NUM(sym.to_z3(cnt)))), used)))
+        # cnt >= 2 * step keeps the counter positive (the appended text is a decimal number without sign)
+        return z3.And(sym.to_z3(step) >= 0, sym.to_z3(cnt) >= 1, sym.to_z3(cnt) >= 2 * sym.to_z3(step), z3.Not(z3.IsMember(lower(sym.S_CAT(tb, sym.S_NUM(sym.to_z3(cnt)))), used)))
 
     def havoc(self, it, frame, st):
         c = it.ctx.fresh_int("cnt")
@@ -196,4 +233,5 @@ for kname, mk in OBJ_KINDS.items():
                     it.case_decl = case_decl
 
                 c.setup = setup
+                c.custom_replay = "contracts.c06_extra.replay_invalid_identifier"  # design-level reproduction of the valid-identifier obligation
                 con.cases.append(c)
